@@ -131,9 +131,9 @@ def replay_ref(model, fnd, prop):
     rc, out = sh(["cargo", "test", "--offline", "--test", "c04_reference_chunker"], cwd=os.path.join(VERIF, "replay"), env=env, timeout=2400,
                  log=os.path.join(LOGS, "replay_c04.log"))
     path = os.path.join(VERIF, "replay", "tests", "c04_reference_chunker.rs")
-    if "test result: FAILED" in out and "C04 violated" in out:
+    if "test result: FAILED" in out:
         m = re.search(r"C04 violated: [^\n]*", out)
-        return True, path, m.group(0)[:240] if m else "native replay fails"
+        return True, path, m.group(0)[:240] if m else ("native replay fails: " + (re.search(r"panicked at [^\n]*\n[^\n]*", out).group(0).replace("\n", " ")[:200] if re.search(r"panicked at [^\n]*\n[^\n]*", out) else "test failed"))
     if re.search(r"test result: ok. [1-9]\d* passed", out):
         return False, path, "native replay passes: chunker equals the reference gear-CDC rule on all tried streams and partitions"
     return None, path, "native replay inconclusive (rc=%s)" % rc
